@@ -630,17 +630,20 @@ def keeps (tbl : Opcode → Eff) (live : List Val) (i : Instr) : Bool :=
   tbl i.opcode ≠ .none || i.results.any (· ∈ live)
 
 /-- which instructions stay; should the stack loop run out of fuel, all of them -/
-def keepFn (tbl : Opcode → Eff) (f : Func) : Instr → Bool :=
-  match liveSet tbl f with
-  | some live => keeps tbl live
-  | none => fun _ => true
+def keepOf (tbl : Opcode → Eff) (live : Option (List Val)) (i : Instr) : Bool :=
+  match live with
+  | some live => keeps tbl live i
+  | none => true
+
+def keepFn (tbl : Opcode → Eff) (f : Func) : Instr → Bool := keepOf tbl (liveSet tbl f)
 
 /-- `passDeadCodeEliminationOpt` for a side-effect table `tbl`: the instructions that stay have their operands
 resolved, the others are unlinked. -/
 def dceWith (tbl : Opcode → Eff) (f : Func) : Func :=
+  let live := liveSet tbl f
   { f with blocks := f.blocks.map (fun B =>
       if B.invalid then B
-      else { B with instrs := (B.instrs.filter (keepFn tbl f)).map (·.mapOperands (res f.alias)) }) }
+      else { B with instrs := (B.instrs.filter (keepOf tbl live)).map (·.mapOperands (res f.alias)) }) }
 
 def dce (f : Func) : Func := dceWith sideEffect f
 
@@ -654,8 +657,9 @@ def gidsBlocks (tbl : Opcode → Eff) (g : Nat) : List Block → List (List Nat)
 /-- for each valid block: the surviving instructions of `dce f` with their group ids -/
 def dceWithGids (f : Func) : List (Block × List (Instr × Nat)) :=
   let bs := f.validBlocks
+  let live := liveSet sideEffect f
   (bs.zip (gidsBlocks sideEffect 0 bs)).map (fun (B, gs) =>
-    (B, ((B.instrs.zip gs).filter (fun p => keepFn sideEffect f p.1)).map
+    (B, ((B.instrs.zip gs).filter (fun p => keepOf sideEffect live p.1)).map
           (fun p => (p.1.mapOperands (res f.alias), p.2))))
 
 /-! ### runPreBlockLayoutPasses -/
